@@ -99,6 +99,17 @@ def check_case(prop, sp, col, shard_name='corpus', max_paths=3000):
             if ext and not sp['conn']:
                 col.violation('admissible_branch_reported_infeasible', sp, {'path': path, 'admissible_extension':
                                                                             ext[0]['assign']}, flags)
+            elif prop == 'C06' and n_infeasible <= 40:
+                # infeasibility is sticky: taking further choices on an infeasible graph (what the fast encoder does
+                # while it looks for a neighbouring vector) never yields a graph that is reported feasible
+                r = D.descend_infeasible(b, g, gen.rng_for('c06descend', S.digest(sp), S.canon(path)))
+                col.count('monitor_infeasible_descents')
+                col.count('infeasible_descent_' + r[0])
+                if r[0] == 'became_feasible':
+                    o2 = O.instance(r[2], b)
+                    col.violation('infeasible_graph_became_feasible', sp,
+                                  {'infeasible_after': path, 'then': r[1], 'nodes': o2['nodes'],
+                                   'final': o2['final']}, flags)
             continue
             if not sel_left:
                 assign, problems = O.read_assignment(obs, model, hint={k[2:]: v for k, v in path})
